@@ -231,13 +231,93 @@ def advance (n : FNode) (sh : SHeader) (d : Data) : FNode :=
            seenD := if sh.hdr.dataHash = emptyDataHash then n.seenD else sh.hdr.dataHash :: n.seenD,
            seenH := sh.hdr.hash :: n.seenH }
 
+theorem applyBlock_ok (n : FNode) (sh : SHeader) (d : Data) (hh : sh.hdr.height = n.store.height + 1) :
+    applyBlock n sh d .ok = (advance n sh d, blockWrites n sh d, true) := by
+  unfold applyBlock
+  simp only [hh]
+  simp [setHeightW, Store.apply, advance, blockWrites, Store.applyAll, stateAfter, blockOf]
+
 theorem applyNext_ok {n : FNode} {sh : SHeader} {d : Data}
     (hH : getH n (n.store.height + 1) = some sh) (hD : getD n (n.store.height + 1) = some d)
     (hv : execValidate n.lastState sh d = none) (hh : sh.hdr.height = n.store.height + 1) :
     applyNext n .ok = some (advance n sh d, blockWrites n sh d, true) := by
   unfold applyNext
-  simp only [hH, hD, hv, hh]
-  simp [setHeightW, Store.apply, advance, blockWrites, Store.applyAll, stateAfter, blockOf]
+  simp only [hH, hD, hv]
+  rw [applyBlock_ok n sh d hh]
+
+/-! ### cached data that does not belong to the (signed) header: dropped, not fatal (/repo 4bb2ed2) -/
+
+/-- the node after the cached data of the next height has been dropped -/
+def dropData (n : FNode) : FNode := { n with datCache := n.datCache.filter (·.1 ≠ n.store.height + 1) }
+
+/-- … and, for an empty block, rebuilt locally (`handleEmptyDataHash` again) -/
+def rebuilt (n : FNode) (sh : SHeader) (d' : Data) : FNode :=
+  { dropData n with datCache := (sh.hdr.height, d') :: (dropData n).datCache }
+
+/-- a well-formed header and data that does not match it: `execValidate` fails, whatever the state -/
+theorem execValidate_mismatch {st : State} {sh : SHeader} {d : Data} (hb : validateBasic sh = none)
+    (hd : validateData sh d ≠ none) : ∃ e, execValidate st sh d = some e := by
+  unfold execValidate
+  rw [hb]
+  cases h : validateData sh d with
+  | none => exact absurd h hd
+  | some e => exact ⟨e, rfl⟩
+
+theorem applyNext_mismatch {n : FNode} {sh : SHeader} {d : Data}
+    (hH : getH n (n.store.height + 1) = some sh) (hD : getD n (n.store.height + 1) = some d)
+    (hb : validateBasic sh = none) (hd : validateData sh d ≠ none) :
+    applyNext n .ok = some (dropMismatch n sh .ok) := by
+  obtain ⟨e, hv⟩ := execValidate_mismatch (st := n.lastState) hb hd
+  unfold applyNext
+  simp only [hH, hD, hv, hb, hd, ne_eq, not_false_eq_true, and_self, ↓reduceIte]
+
+/-- non-empty block: the mismatching data is dropped, the iteration ends without a write, the loop stays alive -/
+theorem applyNext_drop {n : FNode} {sh : SHeader} {d : Data}
+    (hH : getH n (n.store.height + 1) = some sh) (hD : getD n (n.store.height + 1) = some d)
+    (hb : validateBasic sh = none) (hd : validateData sh d ≠ none) (hne : sh.hdr.dataHash ≠ emptyDataHash) :
+    applyNext n .ok = some (dropData n, [], false) := by
+  have he : emptyDataFor { n with datCache := n.datCache.filter (·.1 ≠ n.store.height + 1) } sh.hdr = none := by
+    unfold emptyDataFor; rw [if_neg hne]
+  rw [applyNext_mismatch hH hD hb hd]
+  unfold dropMismatch
+  simp only [he]
+  rfl
+
+theorem getD_rebuilt (n : FNode) (sh : SHeader) (d' : Data) (hh : sh.hdr.height = n.store.height + 1) :
+    getD (rebuilt n sh d') (n.store.height + 1) = some d' := by
+  simp [getD, rebuilt, hh]
+
+theorem filter_ne_idem {α : Type} (l : List (Nat × α)) (k : Nat) :
+    (l.filter (·.1 ≠ k)).filter (·.1 ≠ k) = l.filter (·.1 ≠ k) := by
+  rw [List.filter_filter]; simp
+
+theorem advance_rebuilt (n : FNode) (sh : SHeader) (d' : Data) (hh : sh.hdr.height = n.store.height + 1) :
+    advance (rebuilt n sh d') sh d' = advance n sh d' := by
+  simp only [advance, rebuilt, dropData, blockWrites, stateAfter]
+  congr 1
+  rw [List.filter_cons, hh]
+  simp only [ne_eq, not_true_eq_false, decide_false, Bool.false_eq_true, ↓reduceIte]
+  exact filter_ne_idem _ _
+
+/-- empty block: the mismatching data is dropped, the local data rebuilt, and the block applied with it -/
+theorem applyNext_rebuild {n : FNode} {sh : SHeader} {d d' : Data}
+    (hH : getH n (n.store.height + 1) = some sh) (hD : getD n (n.store.height + 1) = some d)
+    (hb : validateBasic sh = none) (hd : validateData sh d ≠ none)
+    (he : emptyDataFor (dropData n) sh.hdr = some d') (hh : sh.hdr.height = n.store.height + 1)
+    (hv' : execValidate n.lastState sh d' = none) :
+    applyNext n .ok = some (advance n sh d', blockWrites n sh d', true) := by
+  have he' : emptyDataFor { n with datCache := n.datCache.filter (·.1 ≠ n.store.height + 1) } sh.hdr = some d' := he
+  have hg := getD_rebuilt n sh d' hh
+  have hab := applyBlock_ok (rebuilt n sh d') sh d' hh
+  rw [advance_rebuilt n sh d' hh] at hab
+  rw [applyNext_mismatch hH hD hb hd]
+  unfold dropMismatch
+  simp only [he']
+  show some (match getD (rebuilt n sh d') (n.store.height + 1) with
+        | none => _ | some d2 => _) = _
+  rw [hg]
+  simp only [hv']
+  exact congrArg some hab
 
 theorem applyNext_none {n : FNode}
     (h : getH n (n.store.height + 1) = none ∨ getD n (n.store.height + 1) = none) : applyNext n .ok = none := by
